@@ -187,7 +187,8 @@ CHECKS = {
          "command NAME among the hints a run collects is the name of a VISIBLE item of the definition (vis_names / vis_cmds skip everything under "
          "hide()), wherever the hidden part stands; the plumbing (stash, swap, titles, completer values, shell completers, keep_a/keep_b, clones of "
          "adjacent groups) never invents a name (Lemmas/CompVisible.v, mutual induction; hide() needs no hypothesis about the hidden parser) -- with "
-         "the second stage (every candidate stems from a hint) no candidate carries a name only a hidden item has; "
+         "the second stage: C14_candidates_stem_from_visible_items (every candidate computed from the hints of a command level stems from a hint naming a "
+         "visible item, or is a value / placeholder / shell completer); "
          "C14_hidden_parser_offers_nothing (whatever a parser under hide() pushed is dropped); "
          "C14_command_name_typed_last (a subcommand whose name is the last item is not entered: the one hint is its name); "
          "C14_no_request_no_completion (without a request completers and bookkeeping change nothing, = C20). SECOND stage, Complete::complete "
